@@ -10,6 +10,20 @@ import re
 import sys
 
 RULES = [
+    (r"C0[36]", r"op=div,rhs=sparse|binop_orders\[op=div", r"exception:IndexError|div\(sparse\)",
+     "sptensor / sptensor indexes SelfZeroSubs / OtherZeroSubs with positions computed for self.subs / other.subs (wrong array): IndexError when an operand stores fewer entries than the index"),
+    (r"C0[36]", r"op=div,rhs=sparse|binop_orders\[op=div", r"distinct subscripts",
+     "sptensor / sptensor: the same wrong-array indexing reports a subscript twice"),
+    (r"C0[36]", r"op=div,rhs=sparse|binop_orders\[op=div", r"integer subscripts",
+     "sptensor / sptensor stacks the subscripts on a float placeholder: float64 subscripts"),
+    (r"C0[36]", r"op=div,rhs=sparse|binop_orders\[op=div", r"no explicit zero stored",
+     "sptensor / sptensor stores an explicit 0 for 0 / y"),
+    (r"C0[36]", r"op=div,rhs=sparse|binop_orders\[op=div", r"sptensor div sparse$",
+     "sptensor / sptensor: x / 0 is stored as NaN (IEEE: signed infinity), values paired by stored position, wrong cells from the wrong-array indexing"),
+    (r"C0[36]", r"op=div,rhs=dense", r"exception:TypeError|div\(dense\)",
+     "sptensor / tensor with exactly one stored entry: indexing the dense operand with one subscript row returns a scalar (TypeError)"),
+    (r"C0[36]", r"op=div,rhs=dense", r"sptensor div dense$",
+     "sptensor / tensor only divides the stored entries: positions where both operands are zero hold 0 instead of NaN (0/0)"),
     # (property regex, obligation regex, label/site regex, what)
     ("C20", r"sparse_random", r"requested number of distinct nonzeros",
      "sptensor.from_function gives up after 10 rounds of redrawing ALL subscripts: when every round collides it returns fewer nonzeros than requested (sptenrand((2,2), nonzeros=3) does so about once in 30 calls)"),
@@ -18,7 +32,7 @@ RULES = [
 
 def what_for(e):
     for pr, ob, lab, what in RULES:
-        if re.search(pr, e["property"]) and re.search(ob, e["obligation"]) and (re.search(lab, e["label"]) or re.search(lab, e.get("site", ""))):
+        if re.search(pr, e["property"]) and re.search(ob, e["obligation"]) and (re.search(lab, e["label"]) or re.search(lab, e["kind"])):
             return what
     return "UNTRIAGED"
 
